@@ -82,6 +82,17 @@ let dispatch fn args = match fn, args with
     let obs = List.filter (fun x -> x <> "") (String.split_on_char ',' observed) in
     if obs <> [] && List.for_all (fun x -> List.mem x m) obs then "consistent"
     else "MISMATCH model=" ^ String.concat "," m ^ " observed=" ^ observed
+  | "Consolidate", [shared; pages] ->
+    (* shared: name=objnr,... (hex name, hex nr); pages: used names per page, ';' separated *)
+    let split c x = List.filter (fun y -> y <> "") (String.split_on_char c x) in
+    let d = List.map (fun kv -> match String.split_on_char '=' kv with
+        | [k; v] -> (bytes_of_hex k, z_of_hex v) | _ -> failwith "kv") (split ',' shared) in
+    let id = z_of_int 5 in
+    let st = fun i -> if int_of_z i = 5 then d else [] in
+    let pgs = List.map (fun u -> (id, List.map bytes_of_hex (split ',' u))) (String.split_on_char ';' pages) in
+    let (st', ds) = consolidateCloned st pgs in
+    let show d = String.concat "," (List.map (fun (k, v) -> hex_of_bytes k ^ "=" ^ hex_of_z v) d) in
+    show (st' id) ^ "|" ^ String.concat ";" (List.map show ds)
   | "Strip", [s] -> hex_of_bytes (strip (bytes_of_hex s))
   | _ -> failwith ("unknown function " ^ fn)
 let () = main dispatch
